@@ -1970,6 +1970,17 @@ class _Quantifiers(ast.NodeTransformer):
     def visit_Call(self, node):
         self.generic_visit(node)
         f = node.func
+        g = _getter(node)
+        if g is not None:
+            # itemgetter('k') / attrgetter('a') written in place: the
+            # function it stands for
+            self.count += 1
+            return ast.copy_location(ast.Lambda(
+                args=ast.arguments(
+                    posonlyargs=[], args=[ast.arg(arg='elem')],
+                    kwonlyargs=[], kw_defaults=[], defaults=[]),
+                body=_apply_getter(*g, ast.Name(id='elem', ctx=ast.Load()))),
+                node)
         if isinstance(f, ast.Attribute) and isinstance(f.value, ast.Call) \
                 and isinstance(f.value.func, ast.Attribute) and \
                 isinstance(f.value.func.value, ast.Name) and \
@@ -2266,10 +2277,108 @@ def _apply_getter(kind, key, arg):
     return ast.Attribute(value=arg, attr=key, ctx=ast.Load())
 
 
+def class_constants(tree):
+    """{(class name, attribute): value} of class-level names bound once in
+    the class body to an immutable literal (constants, tuples of constants,
+    string operations on them)."""
+    def literal(e):
+        if isinstance(e, ast.Constant):
+            return True
+        if isinstance(e, ast.Tuple):
+            return all(literal(x) for x in e.elts)
+        if isinstance(e, ast.BinOp) and isinstance(e.op, (ast.Add, ast.Mod)):
+            return literal(e.left) and literal(e.right)
+        return False
+    out = {}
+    for k in ast.walk(tree):
+        if not isinstance(k, ast.ClassDef):
+            continue
+        seen = {}
+        for st in k.body:
+            if isinstance(st, (ast.FunctionDef, ast.AsyncFunctionDef,
+                               ast.ClassDef)):
+                continue
+            for x in ast.walk(st):
+                if isinstance(x, ast.Name) and isinstance(x.ctx, ast.Store):
+                    seen[x.id] = seen.get(x.id, 0) + 1
+        for st in k.body:
+            if isinstance(st, ast.Assign) and len(st.targets) == 1 and \
+                    isinstance(st.targets[0], ast.Name) and \
+                    seen.get(st.targets[0].id) == 1 and literal(st.value):
+                out[(k.name, st.targets[0].id)] = st.value
+    return out
+
+
+def inline_new_class_constants(trees, known):
+    """A literal hoisted into a class-level constant the census does not
+    know, read as self.NAME / cls.NAME / Class.NAME: written back (when no
+    other class binds the name and nothing assigns the attribute)."""
+    done = []
+    bound_elsewhere = {}
+    stored_attrs = set()
+    for tree in trees.values():
+        for k in ast.walk(tree):
+            if isinstance(k, ast.ClassDef):
+                for st in k.body:
+                    for x in ast.walk(st) if not isinstance(
+                            st, (ast.FunctionDef, ast.AsyncFunctionDef)) \
+                            else ():
+                        if isinstance(x, ast.Name) and \
+                                isinstance(x.ctx, ast.Store):
+                            bound_elsewhere.setdefault(x.id, set()).add(
+                                k.name)
+            if isinstance(k, ast.Attribute) and \
+                    isinstance(k.ctx, (ast.Store, ast.Del)):
+                stored_attrs.add(k.attr)
+            if isinstance(k, ast.Call) and isinstance(k.func, ast.Name) and \
+                    k.func.id in ('setattr', 'getattr', 'hasattr') and \
+                    len(k.args) >= 2 and isinstance(k.args[1], ast.Constant):
+                stored_attrs.add(k.args[1].value)
+    for path, tree in trees.items():
+        mod = modname_of(path)
+        if not any(kk.startswith(mod + '.') for kk in known):
+            continue
+        consts = {key: v for key, v in class_constants(tree).items()
+                  if 'const:%s.%s.%s' % (mod, key[0], key[1]) not in known
+                  and not key[1].startswith('__') and
+                  bound_elsewhere.get(key[1]) == {key[0]} and
+                  key[1] not in stored_attrs}
+        if not consts:
+            continue
+        used = set()
+        for k in ast.walk(tree):
+            if not isinstance(k, ast.ClassDef):
+                continue
+            mine = {a: v for (c_, a), v in consts.items() if c_ == k.name}
+            if not mine:
+                continue
+
+            class T(ast.NodeTransformer):
+                def visit_Attribute(self, node):
+                    self.generic_visit(node)
+                    if isinstance(node.ctx, ast.Load) and \
+                            node.attr in mine and \
+                            isinstance(node.value, ast.Name) and \
+                            node.value.id in ('self', 'cls', k.name):
+                        used.add((k.name, node.attr))
+                        return ast.copy_location(
+                            copy.deepcopy(mine[node.attr]), node)
+                    return node
+            for st in k.body:
+                if isinstance(st, (ast.FunctionDef, ast.AsyncFunctionDef)):
+                    T().visit(st)
+        ast.fix_missing_locations(tree)
+        for c_, a in sorted(used):
+            done.append(('const:%s.%s.%s' % (mod, c_, a), 1, False))
+    return done
+
+
 def census_constants(trees):
     out = set()
     for path, tree in trees.items():
         mod = modname_of(path)
+        for (c_, a) in class_constants(tree):
+            out.add('const:%s.%s.%s' % (mod, c_, a))
         others = [t for p_, t in trees.items() if p_ != path]
         for name in module_constants(tree, others):
             out.add('const:%s.%s' % (mod, name))
@@ -2735,6 +2844,7 @@ def normalise(trees, known=None):
     if known is None:
         known = baseline()
     clog = inline_new_constants(trees, known)
+    clog += inline_new_class_constants(trees, known)
     n = desugar(trees)
     n += _split_selector_calls(trees, known)
     log = clog + Inliner(trees, known).run()
